@@ -40,7 +40,8 @@ try:
                 if R.random() < 0.12: lit = os.path.join(base, *td, tn)                       # absolute
                 else:
                     lit = '/'.join(rel(d, td) + [tn])
-                    if not lit.startswith('..') or R.random() < 0.3: lit = './' + lit
+                    bare_ok = '/' in lit and not lit.startswith('..')            # `sub/f.nix` is a path literal, `f.nix` alone is not
+                    if not (bare_ok and R.random() < 0.4) and (not lit.startswith('..') or R.random() < 0.3): lit = './' + lit
                 arg, text = ('ALit', lit), (lit if R.random() < 0.85 else '(%s)' % lit)
             content[(d, n)] = (i, arg)
             open(os.path.join(base, *d, n), 'w').write('{ id = "id%d"; next = import %s; }\n' % (i, text))
